@@ -65,6 +65,20 @@ def algebra_configs(tier, seed):
            [class_config('algebra-depth2-%d' % i, cwin=w, csel={'alg', 'operands'}, maxd=2) for i, w in enumerate([(97, 98, 99, 101, 102), (44, 45, 46, 47, 92)])]
 
 
+def random_class_configs(tier, seed, n_quick=3000, n_thorough=40000):
+    import json
+    from . import randterms as RT
+    terms = RT.generate_class_terms(seed * 7919 + 3, n_quick if tier == 'quick' else n_thorough)
+    out = []
+    for i in range(0, len(terms), 20000):
+        c = class_config('random-class-programs-%d' % (i // 20000))
+        c.update(module='PregexClassTerms', workers=1, invariants=['AllConsumed'],
+                 cfg='SPECIFICATION TSpec\nPOSTCONDITION AllConsumed\nCHECK_DEADLOCK FALSE\n',
+                 extra_files={'cterms.json': json.dumps([RT.to_json(t) for t in terms[i:i + 20000]])})
+        out.append(c)
+    return out
+
+
 def hash_seeds(tier, seed):
     return sorted({0, 1, 2, seed % (2 ** 32)}) if tier == 'quick' else list(range(16))
 
@@ -73,7 +87,7 @@ def generic(prop, facets, rule, configs_fn, args_tier=None):
     tier, seed = tier_and_seed(args_tier)
     t0 = time.time()
     seeds = hash_seeds(tier, seed)
-    res = run_generated(configs_fn(tier, seed), 'harness.judge_class.judge', {'prop': prop, 'facets': sorted(facets)},
+    res = run_generated(configs_fn(tier, seed) + random_class_configs(tier, seed), 'harness.judge_class.judge', {'prop': prop, 'facets': sorted(facets)},
                         seeds=seeds, mode='all', batch=200)
     st = res.agg.stats
     cov = {'states': res.states, 'transitions': res.transitions, 'traces_validated_against_impl': st.get('cases', 0),
